@@ -280,7 +280,12 @@ func (w *world) answer(p *pubReq, kind string, status ua.StatusCode) {
 		}
 		if kind == "data" {
 			w.seq[id]++
-			resp = script.DataChange(p.req, id, w.seq[id], map[uint32]*ua.DataValue{1: {EncodingMask: ua.DataValueValue, Value: ua.MustVariant(int32(w.seq[id]))}})
+			dc := script.DataChange(p.req, id, w.seq[id], map[uint32]*ua.DataValue{1: {EncodingMask: ua.DataValueValue, Value: ua.MustVariant(int32(w.seq[id]))}})
+			// a notification message may carry several notifications (Part 4, 7.21):
+			// the application gets them one after the other
+			dc.NotificationMessage.NotificationData = append(dc.NotificationMessage.NotificationData,
+				ua.NewExtensionObject(&ua.DataChangeNotification{MonitoredItems: []*ua.MonitoredItemNotification{{ClientHandle: 2, Value: &ua.DataValue{EncodingMask: ua.DataValueValue, Value: ua.MustVariant(int32(w.seq[id]))}}}, DiagnosticInfos: []*ua.DiagnosticInfo{}}))
+			resp = dc
 			if !w.auto {
 				w.logf("server: conn#%d publish %d <- data sub %d seq %d", p.conn.ID, p.id, id, w.seq[id])
 			}
